@@ -398,12 +398,45 @@ pub fn check(case: &C04Case, st: &mut Stats) -> Verdict {
         Out::Panic(p) => return Err(Failure::new(panic_sig("SDJWTVerifier::new", &p), format!("verifier panicked on an honest key-bound presentation: {}", p))),
     };
     let expected = expected_claims(&tree, &sel.paths, spec.holder);
-    if got != expected {
+    if crate::exact::differs(&got, &expected) {
         return Err(Failure::new("mismatch:verified_claims", format!("honest key-bound presentation: claims differ\n  expected: {}\n  got: {}", expected, got)));
     }
     let parts = split(&presentation, spec.fmt).map_err(|e| Failure::new("harness:void", e))?;
     let issued_parts = split(&issued, spec.fmt).map_err(|e| Failure::new("harness:void", e))?;
     let undisclosed: Vec<String> = issued_parts.disclosures.iter().filter(|d| !parts.disclosures.contains(d)).cloned().collect();
+    // an honest key-bound presentation from ANOTHER wallet implementation: the harness makes the
+    // KB-JWT itself (typ kb+jwt, this nonce and aud, sd_hash computed independently as the SHA-256
+    // of "<jwt>~<d1>~…~<dn>~", signed with the confirmed holder key). The verifier must accept it
+    // like the library holder's own: what sd_hash means is not the two sides' private agreement.
+    if let (Some(enc), Some(kalg)) = (spec.holder.enc(), spec.holder.alg()) {
+        let mut sd = parts.jwt.clone();
+        for d in &parts.disclosures {
+            sd.push('~');
+            sd.push_str(d);
+        }
+        sd.push('~');
+        let now = std::time::SystemTime::now().duration_since(std::time::UNIX_EPOCH).unwrap().as_secs();
+        let p = json!({"nonce": case.nonce, "aud": case.aud, "iat": now, "sd_hash": crate::codec::digest(&sd)});
+        let kb = make_kb(&json!({"alg": kalg.name(), "typ": "kb+jwt"}), &p, kalg, &enc);
+        if let Some(text) = render_ex(&Parts { kb: Some(kb), ..parts.clone() }, spec.fmt, KbRender::Absent, &[]) {
+            st.sub(1);
+            st.label("independent_wallet_presentation");
+            match sut::verify_full(&text, spec.fmt, &resolver, Some(&case.aud), Some(&case.nonce), None) {
+                Out::Ok(c) => {
+                    if crate::exact::differs(&c, &expected) {
+                        return Err(Failure::new("mismatch:verified_claims", format!("independently made key-bound presentation: claims differ\n  expected: {}\n  got: {}", expected, c)));
+                    }
+                }
+                Out::Err(e) => {
+                    return Err(Failure::new(
+                        err_sig("independent-kb-rejected", &e),
+                        format!("a key-bound presentation whose KB-JWT was made independently (same holder key, nonce, aud; sd_hash = SHA-256 of the presented JWT and disclosure sequence) was rejected: {}\n  presentation: {}", e, sut::clip(&text, 3000)),
+                    ))
+                }
+                Out::Panic(p) => return Err(Failure::new(panic_sig("SDJWTVerifier::new", &p), format!("verifier panicked: {}", p))),
+            }
+        }
+    }
     // another credential for the same holder key
     let other = sut::issue(&IssueSpec { claims: case.second_claims.clone(), ..spec.clone() }).ok().and_then(|s| split(&s, spec.fmt).ok());
     let mut ch = Choices::new(&case.choices);
